@@ -75,6 +75,55 @@ Definition rows3 : list value :=
 Lemma ex_q3 : query_ok q3 = true /\ api_run c12_call exec_join 40 false doc q3 = Ok rows3.
 Proof. split; vm_compute; reflexivity. Qed.
 
+(* SELECT a, ((a + 1, 'lit'), b, NULL, a * missing, (SELECT c FROM u)) AS v FROM t
+   — a value tuple as a VALUE: a tuple nested in it holds an arithmetic member (a pointer to float64) and a string literal
+   (NeutalString); then a column, NULL, arithmetic over a missing column (nil *float64), a subquery.  The stored value
+   is the array of the recursively unwrapped members. *)
+Definition q4 : stmt :=
+  SSelect (sel (FTable ["t"] "")
+    [IExpr (ECol ["a"]) "a";
+     IExpr (ETuple [ETuple [EBin BAdd (ECol ["a"]) (ENum 1); EStr "lit"];
+                    ECol ["b"]; ENull; EBin BMul (ECol ["a"]) (ECol ["missing"]);
+                    ESub (SSelect (sel (FTable ["<-"; "u"] "") [IExpr (ECol ["c"]) "c"]))]) "v"]).
+
+Definition rows4 : list value :=
+  [VObj [("a", VNum 1); ("v", VArr [VArr [VNum 2; VStr "lit"]; VStr "x"; VNull; VNull; VArr [VObj [("c", VStr "p")]]])];
+   VObj [("a", VNum 2); ("v", VArr [VArr [VNum 3; VStr "lit"]; VStr "y"; VNull; VNull; VArr [VObj [("c", VStr "p")]]])]].
+
+Lemma ex_q4 : query_ok q4 = true /\ api_run c12_call exec_join 40 false doc q4 = Ok rows4.
+Proof. split; vm_compute; reflexivity. Qed.
+
+(* the raw result and its value, at the level of Expr / ValueOf: ((a + 1, 'lit'), b) on the row {a: 1, b: "x"} *)
+Definition ex_env : env stmt :=
+  {| e_data := VObj []; e_sub := fun _ _ => OutOfModel; e_exists := fun _ _ => OutOfModel;
+     e_agg := fun _ _ _ => OutOfModel; e_call := c12_call; e_hard := false |}.
+
+Definition ex_tuple_row : row := [("a", VNum 1); ("b", VStr "x")].
+Definition ex_tuple_expr : expr stmt :=
+  ETuple [ETuple [EBin BAdd (ECol ["a"]) (ENum 1); EStr "lit"]; ECol ["b"]].
+Definition ex_tuple_result : raw := RTuple [RTuple [RNumPtr (Some 2%float); RNeutral "lit"]; RVal (VStr "x")].
+Definition ex_tuple_value : value := VArr [VArr [VNum 2; VStr "lit"]; VStr "x"].
+
+Lemma ex_tuple_raw :
+  eval ex_env ex_tuple_row ex_tuple_expr = Ok ex_tuple_result /\
+  value_of ex_tuple_row ex_tuple_result = Ok ex_tuple_value.
+Proof. split; vm_compute; reflexivity. Qed.
+
+(* members that Unwrapped does NOT resolve are outside the model (the real code keeps the marker / the pointer
+   as a member of the result array):
+     SELECT (SPIN.idf(a), 1) AS v FROM t      -- Ommit(true) stays in the array
+     SELECT (ASYNC.idf(a), 1) AS v FROM t     -- the *any slot of the call stays in the array *)
+Definition q_tuple_spin : stmt :=
+  SSelect (sel (FTable ["t"] "") [IExpr (ETuple [ECall "spin" "idf" [ECol ["a"]]; ENum 1]) "v"]).
+Definition q_tuple_async : stmt :=
+  SSelect (sel (FTable ["t"] "") [IExpr (ETuple [ECall "async" "idf" [ECol ["a"]]; ENum 1]) "v"]).
+
+Lemma ex_tuple_unresolved :
+  api_run c12_call exec_join 40 false doc q_tuple_spin = OutOfModel /\
+  api_run c12_call exec_join 40 false doc q_tuple_async = OutOfModel /\
+  value_of [] (RTuple [ROmit; RVal (VNum 1)]) = OutOfModel.
+Proof. repeat split; vm_compute; reflexivity. Qed.
+
 (* ---------- each exclusion is needed (the model keeps the key) ---------- *)
 
 Definition leaks (q : stmt) : Prop :=
